@@ -59,6 +59,15 @@ Qed.
 
 Definition is_append (e : fsev) : bool := match e with EAppend _ _ _ _ => true | _ => false end.
 
+Lemma crash_image_single (d : disk) e img :
+  is_append e = false -> crash_image d [e] img -> img = d \/ img = apply_ev flat_ops d e.
+Proof.
+  intros He H. inversion H as [d0 es0|d0 e0 es0 img0 H'|d0 id seq off r es0 c Hc0 Hc1]; subst.
+  - left. reflexivity.
+  - right. inversion H'; subst. reflexivity.
+  - discriminate He.
+Qed.
+
 (* without a data write in the list, the images are the disks after the prefixes *)
 Lemma crash_image_no_append es : forall d img,
   Forall (fun e => is_append e = false) es -> crash_image d es img ->
@@ -180,3 +189,779 @@ Qed.
 Lemma neutral_images es d img :
   Forall neutral es -> Good d -> crash_image d es img -> Good img /\ olog img = olog d.
 Proof. intros Hn Hg. apply safe_run_images; [apply neutral_safe_run; assumption|exact Hg]. Qed.
+
+(* ================================================================================================ *)
+(* 3. A write (Put / Delete of a present key): prelude, append, index                               *)
+Definition tails_nil (d : disk) : Prop := forall f, In f (d_segs d) -> f_tail f = [].
+
+Lemma Inv_tails_nil P (s : st) : Inv P s -> s_mem s <> None -> tails_nil (s_disk s).
+Proof.
+  intros HI Hm. destruct (s_mem s) as [m|] eqn:Em; [|congruence].
+  destruct (Inv_open P s m Em HI) as ((Hd & (HA & HB) & _) & _).
+  intros f Hf. destruct (HB f Hf) as (g & Hg & E1 & E2).
+  destruct (HA g Hg) as (f' & Hf' & F1 & F2 & F3 & F4 & F5).
+  assert (E : f' = f).
+  { apply (NoDup_map_inj f_id (d_segs (s_disk s))); [apply Hd|exact Hf'|exact Hf|congruence]. }
+  subst f'. exact F4.
+Qed.
+
+Lemma Inv_Good P (s : st) : Inv P s -> s_mem s <> None -> bac_ok (s_disk s) -> Good (s_disk s).
+Proof.
+  intros HI Hm Hb. destruct (s_mem s) as [m|] eqn:Em; [|congruence].
+  destruct (Inv_open P s m Em HI) as ((Hd & _) & _ & Hl & _). split; [exact Hd|split; assumption].
+Qed.
+
+Lemma lock_bac_step (d : disk) e :
+  touches_lock e = false -> ev_bac_ok e -> bac_ok d -> d_lock d = true ->
+  bac_ok (apply_ev flat_ops d e) /\ d_lock (apply_ev flat_ops d e) = true.
+Proof.
+  intros Hl He Hb Hlk. split; [apply apply_ev_bac_ok; assumption|].
+  rewrite (apply_ev_d_lock d e Hl). exact Hlk.
+Qed.
+
+Lemma dseg_ok_before_append off r f : dseg_ok (append_seg off r f) -> dseg_ok f /\ f_hdr f = true.
+Proof.
+  unfold dseg_ok. cbn [append_seg f_recs f_tail f_hdr]. intros (H1 & H2 & H3 & H4 & H5).
+  apply Forall_app in H1. destruct H1 as [H1 _]. rewrite recs_len_snoc in H5.
+  assert (Hh : f_hdr f = true).
+  { destruct (f_hdr f) eqn:Eh; [reflexivity|]. destruct (H4 eq_refl) as [E _].
+    apply app_eq_nil in E. destruct E as [_ E]. discriminate E. }
+  split; [|exact Hh]. split; [exact H1|]. split; [exact H2|]. split; [exact H3|]. split.
+  - intros Hf. congruence.
+  - lia.
+Qed.
+
+Lemma DiskOK_before_append (d : disk) id seq off r :
+  DiskOK (apply_ev flat_ops d (EAppend id seq off r)) -> DiskOK d.
+Proof.
+  rewrite apply_ev_append. unfold DiskOK. rewrite d_segs_upd_seg, !map_map.
+  intros (H1 & H2 & H3). split; [|split].
+  - apply Forall_forall. intros f Hf. rewrite Forall_forall in H1.
+    pose proof (H1 _ (in_map _ _ _ Hf)) as Hx. cbv beta in Hx.
+    destruct (is_seg id seq f); [apply (dseg_ok_before_append off r f Hx)|exact Hx].
+  - rewrite (map_ext _ f_id) in H2; [exact H2|]. intros f. destruct (is_seg id seq f); reflexivity.
+  - rewrite (map_ext _ f_seq) in H3; [exact H3|]. intros f. destruct (is_seg id seq f); reflexivity.
+Qed.
+
+Lemma tails_nil_before_append (d : disk) id seq off r :
+  tails_nil (apply_ev flat_ops d (EAppend id seq off r)) -> tails_nil d.
+Proof.
+  rewrite apply_ev_append. unfold tails_nil. rewrite d_segs_upd_seg. intros H f Hf.
+  pose proof (H _ (in_map _ _ _ Hf)) as Hx. cbv beta in Hx.
+  destruct (is_seg id seq f); exact Hx.
+Qed.
+
+Lemma rec_fits_ok r : rec_fits r -> rec_ok r.
+Proof.
+  intros (H1 & H2 & H3 & H4). consts. split; [exact H1|]. split; [exact H2|].
+  rewrite delbit_val. split; lia.
+Qed.
+
+Lemma tail_stuck_torn r c : rec_fits r -> 0 < c -> c < rsize r -> tail_stuck (ntake c (encode_rec r)).
+Proof.
+  intros Hr H0 Hc. unfold tail_stuck.
+  rewrite (strict_prefix_rejected r c (rec_fits_ok r Hr) H0 Hc). split; reflexivity.
+Qed.
+
+(* a torn append leaves a tail that recovery rejects at once: nothing of it is ever replayed *)
+Lemma torn_ok (d : disk) id seq off r c :
+  DiskOK (apply_ev flat_ops d (EAppend id seq off r)) -> tails_nil d -> rec_fits r ->
+  0 < c -> c < rsize r ->
+  DiskOK (torn d id seq r c) /\ olog (torn d id seq r c) = olog d /\ same_rest d (torn d id seq r c).
+Proof.
+  intros Hok Ht Hr H0 Hc. split; [|split].
+  - revert Hok. rewrite apply_ev_append. unfold torn, DiskOK. rewrite !d_segs_upd_seg, !map_map.
+    intros (H1 & H2 & H3). split; [|split].
+    + apply Forall_forall. intros x Hx. apply in_map_iff in Hx. destruct Hx as (f & <- & Hf).
+      rewrite Forall_forall in H1. pose proof (H1 _ (in_map _ _ _ Hf)) as Hx. cbv beta in Hx.
+      destruct (is_seg id seq f); [|exact Hx].
+      pose proof (Ht f Hf) as Etl.
+      destruct (dseg_ok_before_append off r f Hx) as [(A1 & A2 & A3 & A4 & A5) Hh].
+      unfold dseg_ok. cbn [f_recs f_tail f_hdr]. rewrite Etl. cbn [app].
+      split; [exact A1|]. split; [apply tail_stuck_torn; assumption|].
+      split; [apply Forall_ntake; apply encode_rec_bytes; apply rec_fits_ok; exact Hr|].
+      split; [intros Hf'; congruence|exact A5].
+    + rewrite (map_ext _ f_id); [|intros f; destruct (is_seg id seq f); reflexivity].
+      rewrite (map_ext _ f_id) in H2; [exact H2|]. intros f. destruct (is_seg id seq f); reflexivity.
+    + rewrite (map_ext _ f_seq); [|intros f; destruct (is_seg id seq f); reflexivity].
+      rewrite (map_ext _ f_seq) in H3; [exact H3|]. intros f. destruct (is_seg id seq f); reflexivity.
+  - apply rc_rsim_olog. unfold torn. apply rc_upd_seg_rsim. intros s. reflexivity.
+  - unfold torn. apply upd_seg_same_rest.
+Qed.
+
+(* the new, still empty segment file of swapSegment: created, then its header written *)
+Lemma create_header_back (d : disk) id seq :
+  DiskOK d ->
+  DiskOK (apply_ev flat_ops (apply_ev flat_ops d (ECreate (FSeg id seq))) (EHeader (FSeg id seq))) ->
+  DiskOK (apply_ev flat_ops d (ECreate (FSeg id seq))).
+Proof.
+  intros (D1 & D2 & D3). cbn [apply_ev]. unfold DiskOK. rewrite d_segs_upd_seg.
+  set (d1 := set_segs d _). rewrite !map_map. intros (H1 & H2 & H3). split; [|split].
+  - unfold d1. cbn [set_segs d_segs]. apply Forall_app. split; [exact D1|].
+    constructor; [|constructor]. unfold dseg_ok. cbn [f_recs f_tail f_hdr recs_len fold_right].
+    split; [constructor|]. split; [apply tail_stuck_nil|]. split; [constructor|].
+    split; [intros _; split; reflexivity|]. consts. lia.
+  - rewrite (map_ext _ f_id) in H2; [exact H2|]. intros f. destruct (is_seg id seq f); reflexivity.
+  - rewrite (map_ext _ f_seq) in H3; [exact H3|]. intros f. destruct (is_seg id seq f); reflexivity.
+Qed.
+
+Lemma create_header_safe (d : disk) id seq :
+  Good d ->
+  DiskOK (run_evs [ECreate (FSeg id seq); EHeader (FSeg id seq)] d) ->
+  safe_run d [ECreate (FSeg id seq); EHeader (FSeg id seq)].
+Proof.
+  intros (H1 & H2 & H3) Hok. cbn [fold_left] in Hok.
+  pose proof (create_header_back d id seq H1 Hok) as Hok1.
+  destruct (lock_bac_step d (ECreate (FSeg id seq)) eq_refl Logic.I H2 H3) as [B1 L1].
+  destruct (lock_bac_step _ (EHeader (FSeg id seq)) eq_refl Logic.I B1 L1) as [B2 L2].
+  apply sr_cons; [reflexivity|split; [exact Hok1|split; assumption]|apply olog_create_seg|].
+  apply sr_cons; [reflexivity|split; [exact Hok|split; assumption]|apply olog_header|apply sr_nil].
+Qed.
+
+Lemma neutral_sync f : neutral (ESync f).
+Proof. split; [reflexivity|]. split; [reflexivity|exact Logic.I]. Qed.
+Lemma neutral_index i : neutral (EIndex i).
+Proof. split; [reflexivity|]. split; [reflexivity|exact Logic.I]. Qed.
+
+Lemma pre_safe (d : disk) pre id seq :
+  wr_pre_shape pre id seq -> Good d -> DiskOK (run_evs pre d) -> safe_run d pre.
+Proof.
+  intros Hs Hg Hok. destruct Hs as [->|[(i & q & ->)|[->|(i & q & ->)]]].
+  - apply sr_nil.
+  - apply neutral_safe_run; [|exact Hg]. constructor; [apply neutral_sync|constructor].
+  - apply create_header_safe; assumption.
+  - apply (safe_run_app [ESync (FSeg i q)] d [ECreate (FSeg id seq); EHeader (FSeg id seq)]).
+    + apply neutral_safe_run; [|exact Hg]. constructor; [apply neutral_sync|constructor].
+    + apply create_header_safe; [exact Hg|exact Hok].
+Qed.
+
+Lemma post_neutral (post : list fsev) :
+  (post = [] \/ exists i q, post = [ESync (FSeg i q)]) -> Forall neutral post.
+Proof. intros [->|(i & q & ->)]; [constructor|]. constructor; [apply neutral_sync|constructor]. Qed.
+
+(* The write-ahead order.  Every image before the complete append has the old log (a torn append
+   leaves a stuck tail); every image from the complete append on has the new log. *)
+Lemma write_crash (d d' : disk) r id seq off pre i post img :
+  Good d -> wr_pre_shape pre id seq -> (post = [] \/ exists j q, post = [ESync (FSeg j q)]) ->
+  d' = run_evs (pre ++ [EAppend id seq off r; EIndex i]) d ->
+  DiskOK d' -> tails_nil d' -> rec_fits r ->
+  crash_image d (pre ++ [EAppend id seq off r; EIndex i] ++ post) img ->
+  Good img /\ (olog img = olog d \/ olog img = olog d').
+Proof.
+  intros Hg Hshape Hpost Ed' Hok' Ht' Hr Himg.
+  rewrite fold_left_app in Ed'. cbn [fold_left] in Ed'.
+  set (d2 := run_evs pre d) in *. set (d3 := apply_ev flat_ops d2 (EAppend id seq off r)) in *.
+  assert (Hsl : same_log d3 d') by (apply same_log_segs; rewrite Ed'; apply d_segs_index).
+  assert (Hok3 : DiskOK d3) by (apply (same_log_DiskOK _ _ (same_log_sym _ _ Hsl)); exact Hok').
+  assert (Ht3 : tails_nil d3).
+  { intros f Hf. apply Ht'. rewrite Ed', d_segs_index. exact Hf. }
+  assert (Hok2 : DiskOK d2) by (apply (DiskOK_before_append d2 id seq off r); exact Hok3).
+  assert (Ht2 : tails_nil d2) by (apply (tails_nil_before_append d2 id seq off r); exact Ht3).
+  pose proof (pre_safe d pre id seq Hshape Hg Hok2) as Hsafe.
+  destruct (safe_run_end pre d Hsafe Hg) as [Hg2 Ho2]. fold d2 in Hg2, Ho2.
+  destruct (crash_image_split _ _ _ _ Himg) as [Hl|Hrgt].
+  - destruct (safe_run_images pre d img Hsafe Hg Hl) as [A B]. split; [exact A|left; exact B].
+  - fold d2 in Hrgt. cbn [app] in Hrgt.
+    inversion Hrgt as [d0 es0|d0 e0 es0 img0 H'|d0 id0 seq0 off0 r0 es0 c Hc0 Hc1]; subst.
+    + split; [exact Hg2|left; exact Ho2].
+    + fold d3 in H'. destruct Hg2 as (_ & B2 & L2).
+      destruct (lock_bac_step d2 (EAppend id seq off r) eq_refl Logic.I B2 L2) as [B3 L3]. fold d3 in B3, L3.
+      assert (Hg3 : Good d3) by (split; [exact Hok3|split; assumption]).
+      assert (Hn : Forall neutral (EIndex i :: post)).
+      { constructor; [apply neutral_index|apply post_neutral; exact Hpost]. }
+      destruct (neutral_images _ d3 img Hn Hg3 H') as [A B]. split; [exact A|right].
+      rewrite B. symmetry. apply same_log_olog. exact Hsl.
+    + destruct (torn_ok d2 id seq off r c Hok3 Ht2 Hr Hc0 Hc1) as (A1 & A2 & A3).
+      destruct A3 as (_ & _ & _ & _ & _ & R6 & R7). destruct Hg2 as (_ & B2 & L2).
+      split; [split; [exact A1|split; [unfold bac_ok; rewrite R7; exact B2|congruence]]|].
+      left. congruence.
+Qed.
+
+(* ================================================================================================ *)
+(* 4. C03: crash images of Put, Delete, Sync                                                        *)
+Definition closed (d : disk) : st := {| s_mem := None; s_disk := d; s_trace := [] |}.
+
+Lemma Inv_clear P (s : st) : Inv P s -> Inv P (clear_trace s).
+Proof. apply Inv_same; reflexivity. Qed.
+
+Theorem crash_put P (s s' : st) k v o :
+  params_ok P -> Inv P s -> (exists m, s_mem s = Some m /\ room m) -> bac_ok (s_disk s) ->
+  Forall byte k -> Forall byte v -> nlen k <= max_key_len -> nlen v <= max_val_len ->
+  db_put flat_ops P k v (clear_trace s) = (s', o) ->
+  forall img, crash_image (s_disk s) (s_trace s') img ->
+  DiskOK img /\ bac_ok img /\ d_lock img = true /\
+  ((forall k', sget (abs img) k' = sget (abs (s_disk s)) k') \/
+   (forall k', sget (abs img) k' = sget (abs (s_disk s')) k')).
+Proof.
+  intros HP HI Hm Hb Hbk Hbv Hk Hv Eput img Himg.
+  assert (Hmn : s_mem s <> None) by (destruct Hm as (m & -> & _); discriminate).
+  pose proof (Inv_Good P s HI Hmn Hb) as Hg.
+  destruct (put_ok_ex P (clear_trace s) k v HP (Inv_clear P s HI) Hm Hbk Hbv Hk Hv)
+    as (s0 & E0 & HI' & Hm' & _ & id & seq & off & pre & i2 & post & Et & Hshape & Hpost & _ & _ & Ed).
+  rewrite Eput in E0. inversion E0; subst s0 o. clear E0.
+  cbn [clear_trace s_trace s_disk app] in Et, Ed. rewrite Et in Himg.
+  assert (Hok' : DiskOK (s_disk s')).
+  { destruct (s_mem s') as [m'|] eqn:Em'; [|congruence]. apply (Inv_open P s' m' Em' HI'). }
+  destruct (write_crash (s_disk s) (s_disk s') (mkput k v) id seq off pre i2 post img Hg Hshape Hpost Ed Hok'
+              (Inv_tails_nil P s' HI' Hm') (rec_fits_mkput k v Hbk Hbv Hk Hv) Himg) as ((G1 & G2 & G3) & Ho).
+  split; [exact G1|]. split; [exact G2|]. split; [exact G3|].
+  destruct Ho as [Ho|Ho]; [left|right]; intros k'; rewrite (olog_abs _ _ Ho); reflexivity.
+Qed.
+
+Lemma sync_images (d : disk) (tr : list fsev) img :
+  (tr = [] \/ exists i q, tr = [ESync (FSeg i q)]) -> crash_image d tr img -> img = d.
+Proof.
+  intros Htr H. destruct (crash_image_no_append tr d img) as (es1 & es2 & E & ->).
+  - destruct Htr as [->|(i & q & ->)]; repeat constructor.
+  - exact H.
+  - destruct Htr as [->|(i & q & ->)].
+    + destruct es1; [reflexivity|discriminate E].
+    + destruct es1 as [|e es1]; [reflexivity|]. inversion E; subst.
+      destruct es1; [reflexivity|discriminate].
+Qed.
+
+Theorem crash_delete P (s s' : st) k o :
+  params_ok P -> Inv P s -> (exists m, s_mem s = Some m /\ room m) -> bac_ok (s_disk s) ->
+  Forall byte k ->
+  db_delete flat_ops P k (clear_trace s) = (s', o) ->
+  forall img, crash_image (s_disk s) (s_trace s') img ->
+  DiskOK img /\ bac_ok img /\ d_lock img = true /\
+  ((forall k', sget (abs img) k' = sget (abs (s_disk s)) k') \/
+   (forall k', sget (abs img) k' = sget (abs (s_disk s')) k')).
+Proof.
+  intros HP HI Hm Hb Hbk Edel img Himg.
+  assert (Hmn : s_mem s <> None) by (destruct Hm as (m & -> & _); discriminate).
+  pose proof (Inv_Good P s HI Hmn Hb) as Hg.
+  destruct (delete_ok_ex P (clear_trace s) k HP (Inv_clear P s HI) Hm Hbk)
+    as (s0 & E0 & HI' & Hm' & _ & _ & Hcases).
+  rewrite Edel in E0. inversion E0; subst s0 o. clear E0.
+  destruct Hcases as [(_ & Ed & Etr)|(_ & Hk & id & seq & off & pre & i1 & post & Et & Hshape & Hpost & _ & _ & Ed)].
+  - cbn [clear_trace s_trace s_disk app] in Etr, Ed.
+    assert (E : img = s_disk s) by (apply (sync_images (s_disk s) (s_trace s') img); assumption).
+    subst img. destruct Hg as (G1 & G2 & G3). split; [exact G1|]. split; [exact G2|]. split; [exact G3|].
+    left. reflexivity.
+  - cbn [clear_trace s_trace s_disk app] in Et, Ed. rewrite Et in Himg.
+    assert (Hok' : DiskOK (s_disk s')).
+    { destruct (s_mem s') as [m'|] eqn:Em'; [|congruence]. apply (Inv_open P s' m' Em' HI'). }
+    destruct (write_crash (s_disk s) (s_disk s') (mkdel k) id seq off pre i1 post img Hg Hshape Hpost Ed Hok'
+                (Inv_tails_nil P s' HI' Hm') (rec_fits_mkdel k Hbk Hk) Himg) as ((G1 & G2 & G3) & Ho).
+    split; [exact G1|]. split; [exact G2|]. split; [exact G3|].
+    destruct Ho as [Ho|Ho]; [left|right]; intros k'; rewrite (olog_abs _ _ Ho); reflexivity.
+Qed.
+
+Lemma sync_trace (s : st) : s_mem s <> None ->
+  s_disk (fst (db_sync flat_ops (clear_trace s))) = s_disk s /\
+  (s_trace (fst (db_sync flat_ops (clear_trace s))) = [] \/
+   exists i q, s_trace (fst (db_sync flat_ops (clear_trace s))) = [ESync (FSeg i q)]).
+Proof.
+  intros Hm. unfold db_sync. cbn [clear_trace s_mem]. destruct (s_mem s) as [m|]; [|congruence].
+  cbn [fst]. destruct (do_sync_spec (clear_trace s) m) as (_ & E2 & E3). split; [exact E2|exact E3].
+Qed.
+
+(* Sync never changes the contents: every image is the disk itself *)
+Theorem crash_sync P (s s' : st) o :
+  Inv P s -> s_mem s <> None -> bac_ok (s_disk s) ->
+  db_sync flat_ops (clear_trace s) = (s', o) ->
+  forall img, crash_image (s_disk s) (s_trace s') img ->
+  DiskOK img /\ bac_ok img /\ d_lock img = true /\
+  (forall k', sget (abs img) k' = sget (abs (s_disk s)) k') /\
+  (forall k', sget (abs img) k' = sget (abs (s_disk s')) k').
+Proof.
+  intros HI Hm Hb Es img Himg. destruct (sync_trace s Hm) as [Ed Et]. rewrite Es in Ed, Et. cbn [fst] in Ed, Et.
+  assert (E : img = s_disk s) by (apply (sync_images (s_disk s) (s_trace s') img); assumption).
+  subst img. destruct (Inv_Good P s HI Hm Hb) as (G1 & G2 & G3).
+  split; [exact G1|]. split; [exact G2|]. split; [exact G3|]. rewrite Ed. split; reflexivity.
+Qed.
+
+(* ---- recovery from any image (open_recover_ok, in the form used below) ---- *)
+Theorem crash_then_recover P seed (img : disk) :
+  params_ok P -> DiskOK img -> bac_ok img -> d_lock img = true ->
+  exists s2, db_open flat_ops P seed {| s_mem := None; s_disk := img; s_trace := [] |} = (s2, OOpened true) /\
+    Inv P s2 /\ s_mem s2 <> None /\ bac_ok (s_disk s2) /\
+    (forall k, sget (abs (s_disk s2)) k = sget (abs img) k).
+Proof.
+  intros HP Hok Hb Hl. pose proof (open_recover_ok P seed img HP Hok Hb Hl) as H.
+  destruct (db_open flat_ops P seed {| s_mem := None; s_disk := img; s_trace := [] |}) as [s2 o2].
+  destruct H as (-> & HI & Hm & Habs & Hbac & _). exists s2. split; [reflexivity|].
+  split; [exact HI|]. split; [exact Hm|]. split; [unfold bac_ok; rewrite Hbac; constructor|exact Habs].
+Qed.
+
+Theorem C03_put P seed (s s' : st) k v o img :
+  params_ok P -> Inv P s -> (exists m, s_mem s = Some m /\ room m) -> bac_ok (s_disk s) ->
+  Forall byte k -> Forall byte v -> nlen k <= max_key_len -> nlen v <= max_val_len ->
+  db_put flat_ops P k v (clear_trace s) = (s', o) ->
+  crash_image (s_disk s) (s_trace s') img ->
+  exists s2, db_open flat_ops P seed {| s_mem := None; s_disk := img; s_trace := [] |} = (s2, OOpened true) /\
+    Inv P s2 /\ s_mem s2 <> None /\ bac_ok (s_disk s2) /\
+    ((* exactly the contents before the Put *)
+     (forall k', sget (abs (s_disk s2)) k' = sget (abs (s_disk s)) k') \/
+     (* exactly the contents after it *)
+     ((forall k', sget (abs (s_disk s2)) k' = sget (abs (s_disk s')) k') /\
+      (forall k', sget (abs (s_disk s2)) k' = if key_eqb k' k then Some v else sget (abs (s_disk s)) k'))).
+Proof.
+  intros HP HI Hm Hb Hbk Hbv Hk Hv Eput Himg.
+  destruct (crash_put P s s' k v o HP HI Hm Hb Hbk Hbv Hk Hv Eput img Himg) as (G1 & G2 & G3 & Hc).
+  destruct (crash_then_recover P seed img HP G1 G2 G3) as (s2 & E2 & HI2 & Hm2 & Hb2 & Ha2).
+  exists s2. split; [exact E2|]. split; [exact HI2|]. split; [exact Hm2|]. split; [exact Hb2|].
+  destruct Hc as [Hc|Hc]; [left; intros k'; rewrite Ha2; apply Hc|right].
+  pose proof (put_ok P (clear_trace s) k v HP (Inv_clear P s HI) Hm Hbk Hbv Hk Hv) as Hp.
+  rewrite Eput in Hp. destruct Hp as (_ & _ & _ & Hnew). cbn [clear_trace s_disk] in Hnew.
+  split; intros k'; rewrite Ha2, Hc; [reflexivity|apply Hnew].
+Qed.
+
+Theorem C03_delete P seed (s s' : st) k o img :
+  params_ok P -> Inv P s -> (exists m, s_mem s = Some m /\ room m) -> bac_ok (s_disk s) ->
+  Forall byte k ->
+  db_delete flat_ops P k (clear_trace s) = (s', o) ->
+  crash_image (s_disk s) (s_trace s') img ->
+  exists s2, db_open flat_ops P seed {| s_mem := None; s_disk := img; s_trace := [] |} = (s2, OOpened true) /\
+    Inv P s2 /\ s_mem s2 <> None /\ bac_ok (s_disk s2) /\
+    ((forall k', sget (abs (s_disk s2)) k' = sget (abs (s_disk s)) k') \/
+     ((forall k', sget (abs (s_disk s2)) k' = sget (abs (s_disk s')) k') /\
+      (forall k', sget (abs (s_disk s2)) k' = if key_eqb k' k then None else sget (abs (s_disk s)) k'))).
+Proof.
+  intros HP HI Hm Hb Hbk Edel Himg.
+  destruct (crash_delete P s s' k o HP HI Hm Hb Hbk Edel img Himg) as (G1 & G2 & G3 & Hc).
+  destruct (crash_then_recover P seed img HP G1 G2 G3) as (s2 & E2 & HI2 & Hm2 & Hb2 & Ha2).
+  exists s2. split; [exact E2|]. split; [exact HI2|]. split; [exact Hm2|]. split; [exact Hb2|].
+  destruct Hc as [Hc|Hc]; [left; intros k'; rewrite Ha2; apply Hc|right].
+  pose proof (delete_ok P (clear_trace s) k HP (Inv_clear P s HI) Hm Hbk) as Hp.
+  rewrite Edel in Hp. destruct Hp as (_ & _ & _ & Hnew & _). cbn [clear_trace s_disk] in Hnew.
+  split; intros k'; rewrite Ha2, Hc; [reflexivity|apply Hnew].
+Qed.
+
+Theorem C03_sync P seed (s s' : st) o img :
+  params_ok P -> Inv P s -> s_mem s <> None -> bac_ok (s_disk s) ->
+  db_sync flat_ops (clear_trace s) = (s', o) ->
+  crash_image (s_disk s) (s_trace s') img ->
+  exists s2, db_open flat_ops P seed {| s_mem := None; s_disk := img; s_trace := [] |} = (s2, OOpened true) /\
+    Inv P s2 /\ s_mem s2 <> None /\ bac_ok (s_disk s2) /\
+    (forall k', sget (abs (s_disk s2)) k' = sget (abs (s_disk s)) k').
+Proof.
+  intros HP HI Hm Hb Es Himg.
+  destruct (crash_sync P s s' o HI Hm Hb Es img Himg) as (G1 & G2 & G3 & Hc & _).
+  destruct (crash_then_recover P seed img HP G1 G2 G3) as (s2 & E2 & HI2 & Hm2 & Hb2 & Ha2).
+  exists s2. split; [exact E2|]. split; [exact HI2|]. split; [exact Hm2|]. split; [exact Hb2|].
+  intros k'. rewrite Ha2. apply Hc.
+Qed.
+
+(* ================================================================================================ *)
+(* 5. C03: crash images of Close                                                                    *)
+(* pieces of code that only emit neutral events *)
+Definition nrun (s s' : st) : Prop :=
+  exists es, s_trace s' = s_trace s ++ es /\ s_disk s' = run_evs es (s_disk s) /\ Forall neutral es /\
+             s_mem s' = s_mem s.
+
+Lemma nrun_refl (s : st) : nrun s s.
+Proof. exists []. rewrite app_nil_r. repeat split. constructor. Qed.
+
+Lemma nrun_trans (a b c : st) : nrun a b -> nrun b c -> nrun a c.
+Proof.
+  intros (e1 & T1 & D1 & N1 & M1) (e2 & T2 & D2 & N2 & M2). exists (e1 ++ e2).
+  split; [rewrite T2, T1, app_assoc; reflexivity|]. split; [rewrite D2, D1, fold_left_app; reflexivity|].
+  split; [apply Forall_app; split; assumption|congruence].
+Qed.
+
+Lemma nrun_emit e (s : st) : neutral e -> nrun s (emit flat_ops e s).
+Proof. intros H. exists [e]. repeat split. constructor; [exact H|constructor]. Qed.
+
+Lemma nrun_emits es : forall s : st, Forall neutral es -> nrun s (emits flat_ops es s).
+Proof.
+  induction es as [|e es IH]; intros s H; [apply nrun_refl|].
+  inversion H as [|? ? He H']; subst. rewrite rc_emits_cons.
+  eapply nrun_trans; [apply nrun_emit; exact He|apply IH; exact H'].
+Qed.
+
+Definition meta_name (f : fname) : Prop :=
+  match f with FDbMeta | FIndexMeta | FSegMeta _ _ => True | _ => False end.
+
+Lemma nrun_gob_write f body (s : st) :
+  meta_name f -> neutral body -> nrun s (gob_write flat_ops f body s).
+Proof.
+  intros Hf Hb. unfold gob_write.
+  assert (H3 : Forall neutral [EHeader f; body; ESync f]).
+  { constructor; [|constructor; [exact Hb|constructor; [apply neutral_sync|constructor]]].
+    destruct f; try destruct Hf; (split; [reflexivity|split; [reflexivity|exact Logic.I]]). }
+  destruct (exists_file (s_disk s) f).
+  - eapply nrun_trans; [apply nrun_emit|apply nrun_emits; exact H3].
+    destruct f; try destruct Hf; (split; [reflexivity|split; [reflexivity|exact Logic.I]]).
+  - eapply nrun_trans; [apply nrun_emit|apply nrun_emits; exact H3].
+    destruct f; try destruct Hf; (split; [reflexivity|split; [reflexivity|exact Logic.I]]).
+Qed.
+
+Lemma nrun_close_segs G : forall s : st,
+  nrun s (fold_left (fun s g =>
+            gob_write flat_ops (FSegMeta (g_id g) (g_seq g)) (EGobSeg (g_id g) (g_seq g) (g_meta g))
+                      (emit flat_ops (ESync (FSeg (g_id g) (g_seq g))) s)) G s).
+Proof.
+  induction G as [|g G IH]; intros s; [apply nrun_refl|]. cbn [fold_left].
+  eapply nrun_trans; [|apply IH].
+  eapply nrun_trans; [apply nrun_emit; apply neutral_sync|].
+  apply nrun_gob_write; [exact Logic.I|]. split; [reflexivity|split; [reflexivity|exact Logic.I]].
+Qed.
+
+(* Close = neutral events, then the removal of the lock file *)
+Lemma close_shape (s : st) m : s_mem s = Some m ->
+  exists s3 : st, nrun s s3 /\
+    db_close flat_ops s =
+      ({| s_mem := None; s_disk := apply_ev flat_ops (s_disk s3) (ERemove FLock);
+          s_trace := s_trace s3 ++ [ERemove FLock] |}, OOk).
+Proof.
+  intros Em. unfold db_close. rewrite Em.
+  set (s1 := gob_write flat_ops FDbMeta (EGobDb (m_seed m)) s).
+  set (s2 := fold_left _ (m_segs m) s1).
+  set (s3 := gob_write flat_ops FIndexMeta (EGobIndex (m_idx m)) s2).
+  exists (emits flat_ops [ESync FMain; ESync FOverflow] s3). split; [|reflexivity].
+  assert (N1 : nrun s s1).
+  { apply nrun_gob_write; [exact Logic.I|]. split; [reflexivity|split; [reflexivity|exact Logic.I]]. }
+  assert (N2 : nrun s1 s2) by apply nrun_close_segs.
+  assert (N3 : nrun s2 s3).
+  { apply nrun_gob_write; [exact Logic.I|]. split; [reflexivity|split; [reflexivity|exact Logic.I]]. }
+  eapply nrun_trans; [exact N1|]. eapply nrun_trans; [exact N2|]. eapply nrun_trans; [exact N3|].
+  apply nrun_emits. constructor; [apply neutral_sync|constructor; [apply neutral_sync|constructor]].
+Qed.
+
+(* every image reached before the removal of the lock file is recoverable with the same contents;
+   the image after the last event is the cleanly closed disk *)
+Theorem crash_close P (s s1 : st) o img :
+  Inv P s -> s_mem s <> None -> bac_ok (s_disk s) ->
+  db_close flat_ops (clear_trace s) = (s1, o) ->
+  crash_image (s_disk s) (s_trace s1) img ->
+  (DiskOK img /\ bac_ok img /\ d_lock img = true /\
+   (forall k, sget (abs img) k = sget (abs (s_disk s)) k)) \/
+  img = s_disk s1.
+Proof.
+  intros HI Hm Hb Ec Himg. pose proof (Inv_Good P s HI Hm Hb) as Hg.
+  destruct (s_mem s) as [m|] eqn:Em; [|congruence].
+  destruct (close_shape (clear_trace s) m Em) as (s3 & (es & T & D & Hn & _) & E).
+  rewrite Ec in E. inversion E; subst s1 o. clear E.
+  cbn [clear_trace s_trace s_disk app] in T, D. cbn [s_trace s_disk] in *. rewrite T in Himg.
+  destruct (crash_image_split _ _ _ _ Himg) as [Hl|Hr].
+  - left. destruct (neutral_images es (s_disk s) img Hn Hg Hl) as ((G1 & G2 & G3) & Ho).
+    split; [exact G1|]. split; [exact G2|]. split; [exact G3|]. intros k. rewrite (olog_abs _ _ Ho). reflexivity.
+  - destruct (crash_image_single _ (ERemove FLock) _ eq_refl Hr) as [->| ->].
+    + left. destruct (neutral_images es (s_disk s) _ Hn Hg (crash_image_full es _)) as ((G1 & G2 & G3) & Ho).
+      split; [exact G1|]. split; [exact G2|]. split; [exact G3|]. intros k. rewrite (olog_abs _ _ Ho). reflexivity.
+    + right. rewrite D. reflexivity.
+Qed.
+
+Theorem C03_close P seed (s s1 : st) o img :
+  params_ok P -> Inv P s -> s_mem s <> None -> bac_ok (s_disk s) ->
+  db_close flat_ops (clear_trace s) = (s1, o) ->
+  crash_image (s_disk s) (s_trace s1) img ->
+  exists s2 b, db_open flat_ops P seed {| s_mem := None; s_disk := img; s_trace := [] |} = (s2, OOpened b) /\
+    Inv P s2 /\ s_mem s2 <> None /\ bac_ok (s_disk s2) /\
+    (forall k, sget (abs (s_disk s2)) k = sget (abs (s_disk s)) k).
+Proof.
+  intros HP HI Hm Hb Ec Himg.
+  destruct (crash_close P s s1 o img HI Hm Hb Ec Himg) as [(G1 & G2 & G3 & Hc)| ->].
+  - destruct (crash_then_recover P seed img HP G1 G2 G3) as (s2 & E2 & HI2 & Hm2 & Hb2 & Ha2).
+    exists s2, true. split; [exact E2|]. split; [exact HI2|]. split; [exact Hm2|]. split; [exact Hb2|].
+    intros k. rewrite Ha2. apply Hc.
+  - destruct (s_mem s) as [m|] eqn:Em; [|congruence].
+    pose proof (close_reopen_ok P seed (clear_trace s) m HP (Inv_clear P s HI) Em) as H.
+    pose proof (close_reopen_bac P seed (clear_trace s) m (Inv_clear P s HI) Em) as Hbb.
+    pose proof (close_ok P (clear_trace s) m (Inv_clear P s HI) Em) as Hc.
+    rewrite Ec in H, Hbb, Hc. destruct Hc as (_ & Hm1 & _).
+    assert (E : clear_trace s1 = {| s_mem := None; s_disk := s_disk s1; s_trace := [] |}).
+    { unfold clear_trace. rewrite Hm1. reflexivity. }
+    rewrite E in H, Hbb.
+    destruct (db_open flat_ops P seed {| s_mem := None; s_disk := s_disk s1; s_trace := [] |}) as [s2 o2].
+    destruct H as (-> & HI2 & Ha2 & m2 & Em2 & _). exists s2, false.
+    split; [reflexivity|]. split; [exact HI2|]. split; [congruence|].
+    split; [unfold bac_ok; rewrite Hbb; exact Hb|exact Ha2].
+Qed.
+
+(* ================================================================================================ *)
+(* 6. C04: a crash during recovery itself                                                           *)
+(* pieces of code every prefix of whose events keeps the disk recoverable, with the same log *)
+Definition srun (s s' : st) : Prop :=
+  exists es, s_trace s' = s_trace s ++ es /\ s_disk s' = run_evs es (s_disk s) /\ safe_run (s_disk s) es.
+
+Lemma srun_refl (s : st) : srun s s.
+Proof. exists []. rewrite app_nil_r. repeat split. apply sr_nil. Qed.
+
+Lemma srun_trans (a b c : st) : srun a b -> srun b c -> srun a c.
+Proof.
+  intros (e1 & T1 & D1 & S1) (e2 & T2 & D2 & S2). exists (e1 ++ e2).
+  split; [rewrite T2, T1, app_assoc; reflexivity|]. split; [rewrite D2, D1, fold_left_app; reflexivity|].
+  apply safe_run_app; [exact S1|]. rewrite <- D1. exact S2.
+Qed.
+
+Lemma srun_good (s s' : st) : srun s s' -> Good (s_disk s) -> Good (s_disk s') /\ olog (s_disk s') = olog (s_disk s).
+Proof. intros (es & _ & D & S) Hg. rewrite D. apply safe_run_end; assumption. Qed.
+
+Lemma nrun_srun (s s' : st) : nrun s s' -> Good (s_disk s) -> srun s s'.
+Proof.
+  intros (es & T & D & Hn & _) Hg. exists es. split; [exact T|]. split; [exact D|].
+  apply neutral_safe_run; assumption.
+Qed.
+
+Lemma srun_same (s s' : st) : s_trace s' = s_trace s -> s_disk s' = s_disk s -> srun s s'.
+Proof. intros T D. exists []. rewrite app_nil_r. split; [exact T|]. split; [exact D|apply sr_nil]. Qed.
+
+Lemma nrun_fold_emit {A} (ev : A -> fsev) (L : list A) : forall s : st,
+  Forall (fun x => neutral (ev x)) L -> nrun s (fold_left (fun s x => emit flat_ops (ev x) s) L s).
+Proof.
+  induction L as [|x L IH]; intros s H; [apply nrun_refl|].
+  inversion H as [|? ? Hx H']; subst. cbn [fold_left].
+  eapply nrun_trans; [apply nrun_emit; exact Hx|apply IH; exact H'].
+Qed.
+
+(* ---- backupNonsegmentFiles ---- *)
+Lemma nrun_backup (s : st) : nrun s (backup_nonseg flat_ops s).
+Proof.
+  unfold backup_nonseg. apply (nrun_fold_emit (fun f => ERename f (FBac f))).
+  apply Forall_forall. intros f Hf.
+  apply (Permutation_in _ (rc_sort_names_perm _)) in Hf. apply filter_In in Hf. destruct Hf as [_ Hf].
+  apply negb_true_iff in Hf. apply orb_false_iff in Hf. destruct Hf as [Hs Hl].
+  split; [|split; [|exact Logic.I]].
+  - destruct f; try reflexivity. discriminate Hs.
+  - destruct f; try reflexivity. discriminate Hl.
+Qed.
+
+(* ---- openIndex ---- *)
+Lemma nrun_open_index (s s2 : st) i : open_index flat_ops s = Some (s2, i) -> nrun s s2.
+Proof.
+  unfold open_index.
+  assert (NM : Forall neutral [@ECreate flat FMain; EHeader FMain]).
+  { repeat constructor. }
+  assert (NO : Forall neutral [@ECreate flat FOverflow; EHeader FOverflow]).
+  { repeat constructor. }
+  assert (NT : Forall neutral [@ETrunc flat FMain (header_size + 512); EIndex (ix_empty flat_ops)]).
+  { repeat constructor. }
+  set (fresh := match d_index (s_disk s) with None => true | Some _ => false end).
+  set (s1 := if fresh then emits flat_ops [ECreate FMain; EHeader FMain] s else s).
+  set (s2' := if d_overflow (s_disk s1) then s1 else emits flat_ops [ECreate FOverflow; EHeader FOverflow] s1).
+  assert (N1 : nrun s s1) by (unfold s1; destruct fresh; [apply nrun_emits; exact NM|apply nrun_refl]).
+  assert (N2 : nrun s1 s2').
+  { unfold s2'. destruct (d_overflow (s_disk s1)); [apply nrun_refl|apply nrun_emits; exact NO]. }
+  destruct fresh.
+  - set (s3 := emits flat_ops [ETrunc FMain (header_size + 512); EIndex (ix_empty flat_ops)] s2').
+    assert (N3 : nrun s2' s3) by (apply nrun_emits; exact NT).
+    clearbody s3. intros E. injection E as <- _.
+    eapply nrun_trans; [exact N1|]. eapply nrun_trans; [exact N2|exact N3].
+  - destruct (d_index (s_disk s2')) as [i0|]; [|discriminate].
+    destruct (d_imeta (s_disk s2')) as [| |j]; try discriminate.
+    intros E. injection E as <- _. eapply nrun_trans; [exact N1|exact N2].
+Qed.
+
+(* ---- openDatalog: the headers of empty segment files ---- *)
+Lemma dseg_ok_hdr_on f :
+  dseg_ok f -> dseg_ok {| f_id := f_id f; f_seq := f_seq f; f_hdr := true; f_recs := f_recs f;
+                          f_tail := f_tail f; f_meta := f_meta f |}.
+Proof.
+  unfold dseg_ok. cbn [f_recs f_tail f_hdr]. intros (H1 & H2 & H3 & _ & H5).
+  split; [exact H1|]. split; [exact H2|]. split; [exact H3|]. split; [discriminate|exact H5].
+Qed.
+
+Lemma header_seg_safe (d : disk) id seq :
+  Good d -> Good (apply_ev flat_ops d (EHeader (FSeg id seq))) /\
+            olog (apply_ev flat_ops d (EHeader (FSeg id seq))) = olog d.
+Proof.
+  intros ((H1 & H2 & H3) & Hb & Hl). split; [|apply olog_header].
+  destruct (lock_bac_step d (EHeader (FSeg id seq)) eq_refl Logic.I Hb Hl) as [Hb' Hl'].
+  split; [|split; assumption].
+  cbn [apply_ev]. unfold DiskOK. rewrite d_segs_upd_seg, !map_map. split; [|split].
+  - apply Forall_forall. intros x Hx. apply in_map_iff in Hx. destruct Hx as (f & <- & Hf).
+    rewrite Forall_forall in H1. pose proof (H1 f Hf) as Hx.
+    destruct (is_seg id seq f); [apply dseg_ok_hdr_on; exact Hx|exact Hx].
+  - rewrite (map_ext _ f_id); [exact H2|]. intros f. destruct (is_seg id seq f); reflexivity.
+  - rewrite (map_ext _ f_seq); [exact H3|]. intros f. destruct (is_seg id seq f); reflexivity.
+Qed.
+
+Lemma srun_hdr_fold L : forall s : st, Good (s_disk s) -> srun s (fold_left rc_hdr_step L s).
+Proof.
+  induction L as [|f L IH]; intros s Hg; [apply srun_refl|]. cbn [fold_left].
+  assert (S1 : srun s (rc_hdr_step s f)).
+  { unfold rc_hdr_step. destruct (f_hdr f); [apply srun_refl|].
+    exists [EHeader (FSeg (f_id f) (f_seq f))]. split; [reflexivity|]. split; [reflexivity|].
+    destruct (header_seg_safe (s_disk s) (f_id f) (f_seq f) Hg) as [A B].
+    apply sr_cons; [reflexivity|exact A|exact B|apply sr_nil]. }
+  eapply srun_trans; [exact S1|]. apply IH. apply (srun_good _ _ S1 Hg).
+Qed.
+
+(* ---- swapSegment during open: a new, empty segment file ---- *)
+Lemma srun_swap (s : st) (m : mem) :
+  Good (s_disk s) -> rc_magree (m_segs m) (s_disk s) -> ids_increasing (m_segs m) ->
+  (forall g, In g (m_segs m) -> g_seq g <= m_maxseq m) ->
+  srun s (fst (swap_segment flat_ops s m)).
+Proof.
+  intros Hg Hmag Hinc Hmax. unfold swap_segment.
+  destruct (find (fun g => negb (sm_full (g_meta g))) (m_segs m)) as [g|]; [apply srun_refl|].
+  cbn [fst]. set (id := lowest_free 0 (m_segs m)). set (seq := m_maxseq m + 1).
+  exists [ECreate (FSeg id seq); EHeader (FSeg id seq)].
+  split; [apply s_trace_emits|]. split; [apply s_disk_emits|].
+  apply create_header_safe; [exact Hg|].
+  assert (Hfresh : forall g, In g (m_segs m) -> g_id g <> id).
+  { intros g Hin. apply lowest_free_fresh; assumption. }
+  assert (Hsegs : d_segs (run_evs [ECreate (FSeg id seq); EHeader (FSeg id seq)] (s_disk s)) =
+                  d_segs (s_disk s) ++ [rc_newf id seq]).
+  { cbn [fold_left apply_ev]. rewrite d_segs_upd_seg. cbn [set_segs d_segs]. rewrite map_app. f_equal.
+    - rewrite <- (map_id (d_segs (s_disk s))) at 2. apply map_ext_in. intros f Hf.
+      destruct (proj2 Hmag f Hf) as (g & Hin & E1 & _). unfold is_seg.
+      destruct (N.eqb_spec (f_id f) id) as [E|_]; [|reflexivity].
+      exfalso. apply (Hfresh g Hin). congruence.
+    - cbn [map]. unfold is_seg. cbn [f_id f_seq]. rewrite !N.eqb_refl. reflexivity. }
+  destruct Hg as (Hok & _).
+  apply (rc_create_spec (s_disk s) _ (m_segs m) (m_maxseq m) id seq Hok Hmag Hinc Hmax eq_refl Hfresh Hsegs).
+Qed.
+
+(* ---- recover(): the truncation of a stuck tail ---- *)
+Lemma trunc_safe (d : disk) id seq f :
+  Good d -> find_dseg id d = Some f ->
+  Good (apply_ev flat_ops d (ETrunc (FSeg id seq) (header_size + recs_len (f_recs f) + 0))) /\
+  olog (apply_ev flat_ops d (ETrunc (FSeg id seq) (header_size + recs_len (f_recs f) + 0))) = olog d.
+Proof.
+  intros ((H1 & H2 & H3) & Hb & Hl) Ef.
+  set (n := header_size + recs_len (f_recs f) + 0).
+  destruct (lock_bac_step d (ETrunc (FSeg id seq) n) eq_refl Logic.I Hb Hl) as [Hb' Hl'].
+  assert (Hx : forall x, In x (d_segs d) ->
+             rc_rcore (if is_seg id seq x then trunc_seg n x else x) = rc_rcore x /\
+             dseg_ok (if is_seg id seq x then trunc_seg n x else x)).
+  { intros x Hin. rewrite Forall_forall in H1. pose proof (H1 x Hin) as Hdx.
+    destruct (is_seg id seq x) eqn:Es; [|split; [reflexivity|exact Hdx]].
+    assert (E : x = f) by (apply (rc_is_seg_unique d id seq f x H2 Ef Hin Es)). subst x.
+    destruct (f_hdr f) eqn:Eh.
+    - unfold n. rewrite (rc_trunc_seg_all f Eh). split; [reflexivity|].
+      destruct Hdx as (A1 & A2 & A3 & A4 & A5). unfold dseg_ok, rc_clean. cbn [f_recs f_tail f_hdr].
+      split; [exact A1|]. split; [apply tail_stuck_nil|]. split; [constructor|].
+      split; [discriminate|exact A5].
+    - unfold trunc_seg. rewrite Eh. cbn [negb]. split; [reflexivity|exact Hdx]. }
+  assert (Hsegs : d_segs (apply_ev flat_ops d (ETrunc (FSeg id seq) n)) =
+                  map (fun x => if is_seg id seq x then trunc_seg n x else x) (d_segs d)).
+  { cbn [apply_ev]. apply d_segs_upd_seg. }
+  assert (Hrs : rc_rsim d (apply_ev flat_ops d (ETrunc (FSeg id seq) n))).
+  { unfold rc_rsim. rewrite Hsegs, map_map. apply map_ext_in. intros x Hin. symmetry. apply (Hx x Hin). }
+  split; [|apply rc_rsim_olog; exact Hrs].
+  split; [|split; assumption].
+  unfold DiskOK. rewrite (rc_rsim_ids _ _ Hrs), (rc_rsim_seqs _ _ Hrs). split; [|split; assumption].
+  rewrite Hsegs. apply Forall_forall. intros y Hy. apply in_map_iff in Hy. destruct Hy as (x & <- & Hin).
+  apply (Hx x Hin).
+Qed.
+
+Lemma srun_recover_segment P id seq (s : st) (m : mem) :
+  Good (s_disk s) -> srun s (fst (recover_segment flat_ops P id seq s m)).
+Proof.
+  intros Hg. unfold recover_segment.
+  destruct (find_dseg id (s_disk s)) as [f|] eqn:Ef; [|apply srun_refl].
+  destruct (find_dseg_In _ _ _ Ef) as [Hin _].
+  assert (Hst : tail_stuck (f_tail f)).
+  { destruct Hg as ((H1 & _) & _). rewrite Forall_forall in H1. apply (H1 f Hin). }
+  destruct (rc_tail_stuck_parse _ Hst) as (why & Ep & _). rewrite Ep. cbv beta iota zeta.
+  rewrite rc_reframe_nil. cbn [fst].
+  assert (St : srun s (emit flat_ops (ETrunc (FSeg id seq) (header_size + recs_len (f_recs f) + 0)) s)).
+  { exists [ETrunc (FSeg id seq) (header_size + recs_len (f_recs f) + 0)].
+    split; [reflexivity|]. split; [reflexivity|].
+    destruct (trunc_safe (s_disk s) id seq f Hg Ef) as [A B].
+    apply sr_cons; [reflexivity|exact A|exact B|apply sr_nil]. }
+  destruct why; [apply srun_refl|exact St|exact St|exact St].
+Qed.
+
+Lemma srun_recover_loop P (L : list mseg) : forall (s : st) (m : mem),
+  Good (s_disk s) ->
+  srun s (fst (fold_left (fun sm g => recover_segment flat_ops P (g_id g) (g_seq g) (fst sm) (snd sm)) L (s, m))).
+Proof.
+  induction L as [|g L IH]; intros s m Hg; [apply srun_refl|]. cbn [fold_left fst snd].
+  pose proof (srun_recover_segment P (g_id g) (g_seq g) s m Hg) as S1.
+  destruct (recover_segment flat_ops P (g_id g) (g_seq g) s m) as [s1 m1]. cbn [fst] in S1.
+  eapply srun_trans; [exact S1|]. apply IH. apply (srun_good _ _ S1 Hg).
+Qed.
+
+(* ---- removeRecoveryBackupFiles ---- *)
+Lemma nrun_remove_bac (s : st) : bac_ok (s_disk s) -> nrun s (remove_bac flat_ops s).
+Proof.
+  intros Hb. unfold remove_bac. apply (nrun_fold_emit (fun f => ERemove f)).
+  apply Forall_forall. intros f Hf. apply (Permutation_in _ (rc_sort_names_perm _)) in Hf.
+  unfold bac_ok in Hb. rewrite Forall_forall in Hb. pose proof (Hb f Hf) as Hx.
+  destruct f; try destruct Hx. split; [reflexivity|split; [reflexivity|exact Logic.I]].
+Qed.
+
+Lemma srun_recover P (s : st) (m : mem) : Good (s_disk s) -> srun s (fst (recover flat_ops P s m)).
+Proof.
+  intros Hg. unfold recover.
+  pose proof (srun_recover_loop P (by_seq (m_segs m)) s m Hg) as S1.
+  destruct (fold_left _ (by_seq (m_segs m)) (s, m)) as [s1 m1]. cbn [fst] in S1 |- *.
+  destruct (srun_good _ _ S1 Hg) as [Hg1 _].
+  set (m2 := seal_all_but_last (by_seq (m_segs m)) m1).
+  assert (S2 : srun s1 (emit flat_ops (EIndex (m_idx m2)) s1)).
+  { apply nrun_srun; [apply nrun_emit; apply neutral_index|exact Hg1]. }
+  destruct (srun_good _ _ S2 Hg1) as [Hg2 _].
+  eapply srun_trans; [exact S1|]. eapply srun_trans; [exact S2|].
+  apply nrun_srun; [apply nrun_remove_bac; apply Hg2|exact Hg2].
+Qed.
+
+(* ---- the whole recovering Open ---- *)
+Lemma open_srun P seed (d : disk) : Good d -> srun (closed d) (fst (db_open flat_ops P seed (closed d))).
+Proof.
+  intros Hg. pose proof Hg as (Hok & Hbac & Hlock).
+  unfold db_open. change (s_mem (closed d)) with (@None mem). cbv iota.
+  change (d_lock (s_disk (closed d))) with (d_lock d). rewrite Hlock. cbv iota.
+  (* backupNonsegmentFiles *)
+  pose proof (rc_backup_spec (closed d) Hok Hbac) as H1. cbv zeta in H1.
+  pose proof (nrun_backup (closed d)) as N1.
+  set (s1 := backup_nonseg flat_ops (closed d)) in *.
+  destruct H1 as (_ & _ & _ & Hi1 & Hmeta1 & _).
+  assert (S1 : srun (closed d) s1) by (apply nrun_srun; [exact N1|exact Hg]).
+  destruct (srun_good _ _ S1 Hg) as [Hg1 _].
+  (* openIndex *)
+  destruct (rc_open_index_fresh s1 Hi1) as (s2 & E2 & Hsegs2 & _).
+  rewrite E2. pose proof (nrun_open_index s1 s2 [] E2) as N2.
+  assert (S2 : srun s1 s2) by (apply nrun_srun; [exact N2|exact Hg1]).
+  destruct (srun_good _ _ S2 Hg1) as [Hg2 _].
+  (* openDatalog *)
+  assert (Hmeta2 : forall f, In f (d_segs (s_disk s2)) -> f_meta f = GAbsent).
+  { rewrite Hsegs2. exact Hmeta1. }
+  destruct (rc_open_segments_recovery s2 (proj1 Hg2) Hmeta2)
+    as (s3 & segs & E3 & _ & _ & Hmag3 & Hinc3 & _).
+  destruct (rc_open_segments_spec s2 (proj1 (proj2 (proj1 Hg2)))) as (s3' & segs' & E3' & _ & _ & _ & Efold & _).
+  rewrite E3 in E3'. injection E3' as <- <-. rewrite E3.
+  assert (S3 : srun s2 s3) by (rewrite Efold; apply srun_hdr_fold; exact Hg2).
+  destruct (srun_good _ _ S3 Hg2) as [Hg3 _].
+  (* swapSegment *)
+  set (m0 := ({| m_segs := segs; m_cur := (0, 0); m_cur_removed := true;
+                 m_maxseq := fold_left (fun n g => N.max n (g_seq g)) segs 0; m_idx := []; m_seed := seed |} : mem)).
+  assert (S4 : srun s3 (fst (swap_segment flat_ops s3 m0))).
+  { apply srun_swap; [exact Hg3|exact Hmag3|exact Hinc3|]. intros g Hin. apply (rc_fold_max_ge segs 0). exact Hin. }
+  destruct (swap_segment flat_ops s3 m0) as [s4 m1]. cbn [fst] in S4.
+  destruct (srun_good _ _ S4 Hg3) as [Hg4 _].
+  assert (S04 : srun (closed d) s4).
+  { eapply srun_trans; [exact S1|]. eapply srun_trans; [exact S2|]. eapply srun_trans; [exact S3|exact S4]. }
+  cbn [ix_count flat_ops nlen]. change (0 =? 0) with true. cbv iota.
+  (* recover *)
+  set (m2 := {| m_segs := m_segs m1; m_cur := m_cur m1; m_cur_removed := m_cur_removed m1;
+                m_maxseq := m_maxseq m1; m_idx := m_idx m1; m_seed := seed |}).
+  pose proof (srun_recover P s4 m2 Hg4) as S5.
+  destruct (recover flat_ops P s4 m2) as [s5 m3]. cbn [fst] in S5 |- *.
+  eapply srun_trans; [exact S04|]. eapply srun_trans; [exact S5|].
+  apply srun_same; reflexivity.
+Qed.
+
+(* The events of a recovering Open only rename / create / remove non-segment files, write the headers
+   of empty segment files, create one empty segment file, truncate stuck tails and write the index:
+   whenever the process dies during recovery, what is left is as recoverable as before. *)
+Theorem crash_open_recover P seed (d : disk) :
+  DiskOK d -> bac_ok d -> d_lock d = true ->
+  forall img, crash_image d (s_trace (fst (db_open flat_ops P seed {| s_mem := None; s_disk := d; s_trace := [] |}))) img ->
+  DiskOK img /\ bac_ok img /\ d_lock img = true /\ forall k, sget (abs img) k = sget (abs d) k.
+Proof.
+  intros Hok Hb Hl img Himg. assert (Hg : Good d) by (split; [exact Hok|split; assumption]).
+  destruct (open_srun P seed d Hg) as (es & T & _ & Hs). fold (closed d) in Himg.
+  cbn [closed s_trace app] in T. rewrite T in Himg. cbn [closed s_disk] in Hs.
+  destruct (safe_run_images es d img Hs Hg Himg) as ((G1 & G2 & G3) & Ho).
+  split; [exact G1|]. split; [exact G2|]. split; [exact G3|]. intros k. rewrite (olog_abs _ _ Ho). reflexivity.
+Qed.
+
+Theorem C04_recover_after_crashed_recovery P seed seed2 (d : disk) img :
+  params_ok P -> DiskOK d -> bac_ok d -> d_lock d = true ->
+  crash_image d (s_trace (fst (db_open flat_ops P seed {| s_mem := None; s_disk := d; s_trace := [] |}))) img ->
+  exists s2, db_open flat_ops P seed2 {| s_mem := None; s_disk := img; s_trace := [] |} = (s2, OOpened true) /\
+    Inv P s2 /\ s_mem s2 <> None /\ bac_ok (s_disk s2) /\
+    (forall k, sget (abs (s_disk s2)) k = sget (abs d) k).
+Proof.
+  intros HP Hok Hb Hl Himg.
+  destruct (crash_open_recover P seed d Hok Hb Hl img Himg) as (G1 & G2 & G3 & Hc).
+  destruct (crash_then_recover P seed2 img HP G1 G2 G3) as (s2 & E2 & HI2 & Hm2 & Hb2 & Ha2).
+  exists s2. split; [exact E2|]. split; [exact HI2|]. split; [exact Hm2|]. split; [exact Hb2|].
+  intros k. rewrite Ha2. apply Hc.
+Qed.
